@@ -87,6 +87,7 @@ func (c12) Gen(rt *rapid.T, thorough bool) any {
 	s.Handles = rapid.IntRange(0, 2).Draw(rt, "handles")
 	s.Cycle = rapid.IntRange(0, 3).Draw(rt, "cycle") == 0
 	s.BadHandle = rapid.IntRange(0, 9).Draw(rt, "bad_handle") == 0
+	s.HandleOnly = s.Via == "refresh" && rapid.IntRange(0, 2).Draw(rt, "handle_only12") == 0
 	if s.Kind == "File" && rapid.IntRange(0, 2).Draw(rt, "write_fail") == 0 {
 		s.WriteFailAt = rapid.IntRange(1, 4).Draw(rt, "write_fail_at")
 	}
@@ -146,6 +147,9 @@ func runC12Refresh(x *Exec, s *AsyncScn) {
 	}
 	spec := &SysSpec{Style: s.Style, Props: map[string]string{}}
 	lg := LogSpec{Name: hname, Type: s.Kind, Tags: []string{"_app_*"}, Level: s.Level, Layout: s.LLayout}
+	if s.HandleOnly {
+		lg.Tags = []string{"legacy_*"} // matches no registered tag: the logger is reached through its handle only
+	}
 	sys := &asyncSys{s: s, capacity: s.BufferSize}
 	switch s.Kind {
 	case "AsyncLogger", "Logger":
